@@ -623,6 +623,14 @@ static void c06_case(const TypeCtx& c, uint64_t ci) {
           if (st) v2(fmt("C06:accepts-small-buffer:%s:%s", wname(wk), tkey(c).c_str()), fmt("Write into %zu < GetSize (%zu) remaining bytes reported success (wrote %zu)", room, gs, wr), det);
           else if (st.error() != nop::ErrorStatus::WriteLimitReached) v2(fmt("C06:wrong-error:%s:%s:%s", errname(st.error()), wname(wk), tkey(c).c_str()), fmt("Write into a too small buffer returned '%s', not WriteLimitReached", errname(st.error())), det);
           if (wr > room) v2(fmt("C06:wrote-beyond-capacity:%s:%s", wname(wk), tkey(c).c_str()), fmt("%zu bytes written with %zu remaining", wr, room), det);
+          // the refusal is not sticky: the same writer still has room - wr bytes, and a value whose GetSize fits there must be written (a writer that latches its
+          // first refusal breaks "Write with at least GetSize bytes of remaining capacity never fails" on the second use)
+          if (!st && wr <= room && !(c.t->flags & F_HANDLE) && !inner_limited) {
+            Obj od(c.t); const size_t gsd = c.t->get_size(od.p); const size_t before = s.written();
+            if (gsd <= room - wr) { auto st3 = c.t->write(s, od.p); rep().count("c06_writes_after_a_refused_write");
+              if (!st3) v2(fmt("C06:fails-with-room:after-refusal:%s:%s", wname(wk), tkey(c).c_str()), fmt("after a refused Write (%zu bytes were missing) the same writer has %zu bytes left, yet a value with GetSize %zu failed with '%s'", gs - room, room - wr, gsd, errname(st3.error())), det);
+              else if (s.written() - before != gsd) v2(fmt("C06:wrong-bytes:after-refusal:%s:%s", wname(wk), tkey(c).c_str()), fmt("after a refused Write a value with GetSize %zu was written as %zu bytes", gsd, s.written() - before), det); }
+          }
         }
       }
     }
